@@ -33,8 +33,26 @@ ADDR = {
 }
 ADDR.update({"e1": ("192.0.2.11", 40001), "e2": ("192.0.2.12", 40002), "e3": ("2001:db8::13", 40003),
              "e4": ("192.0.2.14", 40004)})
-RADDR = {v: k for k, v in ADDR.items()}
+# two peers that differ only in the IPv6 scope id (the same link-local address reached over two interfaces)
+ADDR.update({"a4": ("fe80::1", 30490, 0, 2), "a5": ("fe80::1", 30490, 0, 3)})
+RADDR = {v: k for k, v in ADDR.items() if len(v) == 2}
 RADDR[None] = "mc"
+RADDR_FULL = {v: k for k, v in ADDR.items()}
+
+
+
+def hosts(n):
+    """names h0 .. h<n-1> of further peers (scale scenarios: more senders than any bounded table holds)"""
+    names = []
+    for i in range(n):
+        name = "h%d" % i
+        if name not in ADDR:
+            ADDR[name] = ("10.9.%d.%d" % (i // 250, i % 250 + 1), 30490)
+            RADDR[ADDR[name]] = name
+            RADDR_FULL[ADDR[name]] = name
+        names.append(name)
+    return names
+
 
 ANY16, ANY8, ANY32 = 0xFFFF, 0xFF, 0xFFFFFFFF
 
@@ -55,6 +73,7 @@ FLT = {
     "F2": (0x1111, 1, 1, ANY32),          # s1
     "F3": (0x2222, ANY16, 2, ANY32),      # s3
     "F4": (0x1111, 2, ANY8, 0),           # s2
+    "F5": (0x1111, 1, 1, 0),              # s1, fully specified
 }
 
 EP = {
@@ -106,7 +125,8 @@ def svc_name(s):
 def addr_name(a):
     if a is None:
         return "mc"
-    return RADDR.get(tuple(a[:2]), "a?")
+    a = tuple(a)
+    return RADDR_FULL.get(a) or RADDR.get(a[:2], "a?")
 
 
 def opt_name(o):
